@@ -7,6 +7,7 @@ import (
 	"time"
 
 	"github.com/fluffle/goirc/client"
+	"github.com/fluffle/goirc/state"
 
 	"verif/vx"
 )
@@ -49,6 +50,7 @@ type c18Cfg struct {
 	TLSCfg   bool          // Config.SSLConfig is set although Config.SSL is false: still a plain connection to 6667
 	FloodCtl bool          // flood protection on (Config.Flood false)
 	Chatter  time.Duration // > 0: a user task sends a short line every Chatter while the connection is up
+	Literal  string        // "" = NewConfig | full: a Config struct literal with the whole identity given | nil-me, no-ident: a literal whose identity Client() repairs (nick __idiot__, ident goirc, name "Powered by GoIRC"); everything else in it stays
 	Late     string        // "" = everything is in the Config given to Client() | "flags" = SSL, password, negotiation and PingFreq are set through Conn.Config() after Client(), which saw the opposite values | "server" = so is the server
 	Twice    bool          // Connect() is called once more while each connection is up (it cannot succeed: nothing may be dialled or sent again)
 	Via      string        // "" = Connect() both times | "to" = ConnectTo(server) the second time | "to-pass" = ConnectTo(server, password) both times with an empty Config.Pass
@@ -77,6 +79,9 @@ func (c c18Cfg) extra() string {
 	if c.Late != "" {
 		x += " set-after-Client()=" + c.Late
 	}
+	if c.Literal != "" {
+		x += " config-literal=" + c.Literal
+	}
 	if c.Twice {
 		x += " connect-again-while-connected"
 	}
@@ -84,7 +89,7 @@ func (c c18Cfg) extra() string {
 }
 
 func (c c18Cfg) params() map[string]interface{} {
-	return map[string]interface{}{"given": c.Given, "pass": c.Pass, "negotiation": c.Cap, "ssl": c.SSL, "server": c.Server.Addr, "pingfreq": c.PingFreq.String(), "tracking": c.Tracking, "welcome": c.Welcome, "tlscfg": c.TLSCfg, "floodctl": c.FloodCtl, "chatter": c.Chatter.String(), "via": c.Via, "late": c.Late, "twice": c.Twice}
+	return map[string]interface{}{"given": c.Given, "pass": c.Pass, "negotiation": c.Cap, "ssl": c.SSL, "server": c.Server.Addr, "pingfreq": c.PingFreq.String(), "tracking": c.Tracking, "welcome": c.Welcome, "tlscfg": c.TLSCfg, "floodctl": c.FloodCtl, "chatter": c.Chatter.String(), "via": c.Via, "late": c.Late, "twice": c.Twice, "literal": c.Literal}
 }
 
 // client builds the client: normally Client(c.build()); with Late, Client() sees a Config with the opposite
@@ -117,9 +122,19 @@ func (c c18Cfg) client() *client.Conn {
 
 func (c c18Cfg) build() *client.Config {
 	var cfg *client.Config
-	if c.Given {
+	switch {
+	case c.Literal != "":
+		// hand-built: no NewConfig defaults at all except the two functions a Config cannot do without
+		cfg = &client.Config{NewNick: client.DefaultNewNick, Recover: (*client.Conn).LogPanic}
+		switch c.Literal {
+		case "full":
+			cfg.Me = &state.Nick{Nick: "me", Ident: "myident", Name: "My Real Name"}
+		case "no-ident":
+			cfg.Me = &state.Nick{Nick: "me", Name: "My Real Name"}
+		}
+	case c.Given:
 		cfg = client.NewConfig("me", "myident", "My Real Name")
-	} else {
+	default:
 		cfg = client.NewConfig("me")
 	}
 	cfg.Proxy = "verif://proxy" // the in-memory dialler records the address it is asked for
@@ -198,8 +213,16 @@ func c18RunConfig(e *Enum, c c18Cfg) {
 	}
 	o := RunSeq(vx.Options{MaxSteps: 200000, Horizon: 6 * time.Hour}, func(env *vx.Env) {
 		cfg := c.build()
-		wantNick, wantIdent, wantName = cfg.Me.Nick, cfg.Me.Ident, cfg.Me.Name
 		cl := c.client()
+		switch c.Literal {
+		case "":
+			wantNick, wantIdent, wantName = cfg.Me.Nick, cfg.Me.Ident, cfg.Me.Name
+		case "full":
+			wantNick, wantIdent, wantName = "me", "myident", "My Real Name"
+		default:
+			// documented in Client(): an unusable identity is replaced as a whole
+			wantNick, wantIdent, wantName = "__idiot__", "goirc", "Powered by GoIRC"
+		}
 		if c.Tracking {
 			cl.EnableStateTracking()
 		}
@@ -750,6 +773,16 @@ func c18TrafficJob() Job {
 				c := c18Cfg{Server: srv, Pass: pass, TLSCfg: true}
 				e.Case(c.String())
 				c18RunConfig(e, c)
+				// a Config built as a struct literal: whole identity given, or one that Client() has to repair
+				for _, lit := range []string{"full", "nil-me", "no-ident"} {
+					for _, cp := range []bool{false, true} {
+						for _, tr := range []bool{false, true} {
+							c := c18Cfg{Server: srv, Pass: pass, Cap: cp, Literal: lit, Tracking: tr, Welcome: tr, PingFreq: 3 * time.Second}
+							e.Case(c.String())
+							c18RunConfig(e, c)
+						}
+					}
+				}
 				// the same through ConnectTo, with and without its password argument
 				for _, via := range []string{"to", "to-pass"} {
 					for _, cp := range []bool{false, true} {
@@ -794,7 +827,7 @@ func c18LenJob(from, to int) Job {
 func init() {
 	Register(&Prop{
 		ID:   "C18",
-		Rule: "configurations: full product of NewConfig(nick) defaults / given ident+name x password unset/set x negotiation on/off x SSL on/off x 6 server spellings (name, IPv4, bracketed IPv6; with and without port) x PingFreq {0, -1s, 3s} (thorough: also -1ns, 0.7s, 1.5s, 7s, 11s) x the settings given to Client() / SSL, password, negotiation and PingFreq written through Conn.Config() after Client() saw the opposite values / the server too x Connect() called once / once more while the connection is up, plus (job keepalive-under-traffic) flood protection on/off x a user line every 2.5 s / 1 s / never x Config.SSLConfig set with SSL off, and connects through ConnectTo(server) / ConnectTo(server, password), each run as a session of two connects on one client with 10 s of virtual time after each (SSL: the server closes during the handshake, only the dial address and the failure of Connect are observed); PING answers: 14 tokens (single byte, with spaces, leading colon, empty-but-present, inner colons, 400 bytes, ...) in trailing form, with a source, in middle form and with a second parameter where legal; each alone in five surroundings, all ordered pairs in one write with chat between or after, and all variants in one session (three rounds, seven rotations, with and without the client's own keep-alive running), before and after the welcome; thorough: also every token length 1..470; one case = one configuration / one probe script, distinct = distinct configurations / scripts",
+		Rule: "configurations: full product of NewConfig(nick) defaults / given ident+name x password unset/set x negotiation on/off x SSL on/off x 6 server spellings (name, IPv4, bracketed IPv6; with and without port) x PingFreq {0, -1s, 3s} (thorough: also -1ns, 0.7s, 1.5s, 7s, 11s) x the settings given to Client() / SSL, password, negotiation and PingFreq written through Conn.Config() after Client() saw the opposite values / the server too x Connect() called once / once more while the connection is up, plus (job keepalive-under-traffic) flood protection on/off x a user line every 2.5 s / 1 s / never x Config.SSLConfig set with SSL off, Config struct literals (identity given in full / nil / without ident, which Client() replaces by its documented defaults), and connects through ConnectTo(server) / ConnectTo(server, password), each run as a session of two connects on one client with 10 s of virtual time after each (SSL: the server closes during the handshake, only the dial address and the failure of Connect are observed); PING answers: 14 tokens (single byte, with spaces, leading colon, empty-but-present, inner colons, 400 bytes, ...) in trailing form, with a source, in middle form and with a second parameter where legal; each alone in five surroundings, all ordered pairs in one write with chat between or after, and all variants in one session (three rounds, seven rotations, with and without the client's own keep-alive running), before and after the welcome; thorough: also every token length 1..470; one case = one configuration / one probe script, distinct = distinct configurations / scripts",
 		Assumptions: []string{
 			"the address is observed at the registered proxy dialler (Config.Proxy set); the direct net.Dialer path passes the same Config.Server string",
 			"for the bracketed IPv6 literal without port the port is expected to be appended to the literal as written ([::1]:6667)",
